@@ -25,9 +25,17 @@
       - set operations report a stored representation of one of the operands
         ([C18_union_reports_stored], [C18_intersection_reports_stored]; full statements: C05 ff.).
 
-    NOT covered here: interchangeability of two representations as VIEW keys ([view_at]/[find] store
-    the query itself in a virtual view, so the two views differ in that field) and as [children] /
-    [cover] / [get_spm] keys; see "not covered" in the report. *)
+      - two representations of one key are interchangeable as SELECTION and VIEW keys as well:
+        [get_lpm_prefix]/[get_lpm_mut], [get_spm]/[cover] (every state of the lazy iterator),
+        [children*], [remove]/[remove_keep_tree]/[remove_children]/value updates (equality of the
+        WHOLE map, allocator included), [view_at]/[find]/[find_exact]/[find_lpm] and arbitrary
+        navigations of read-only and mutable views ([C18_lpm_variants_key_only],
+        [C18_spm_cover_key_only], [C18_children_key_only], [C18_removal_key_only],
+        [C18_views_key_only], [C18_view_navigation_key_only], [C18_view_mut_key_only],
+        [C18_view_mut_navigation_key_only]; proofs in KeyCongr.v).  A virtual view stores the query
+        as passed, so two views obtained with different representations agree on everything
+        except the host bits of [prefix()] ([C18_view_at_literal_refuted] shows that this
+        exception is real — the documented behaviour, cf. C11). *)
 From Coq Require Import List NArith Bool Sorted.
 From PT Require Import Lookup Lookup2 UnionThm InterDiffThm Refine Refine2.
 From PT.Properties Require Import Common.
@@ -278,6 +286,316 @@ Example C18_example :
   entries (root m3) = [(pzero, 7%nat); (mkpfx 0x7f 2, 6%nat); (mkpfx 0x80 1, 50%nat)].
 Proof. vm_compute. repeat split; try reflexivity. discriminate. Qed.
 
+(* ------------------------------------------------------------------------------------------ *)
+(** * SELECTION and VIEW keys (added; supersedes the "NOT covered here" note in the header)
+
+    Every descent of the model uses its query only through [eq], [contains], [is_bit_set] and
+    [prefix_len] against node prefixes, and each of these depends on the key only
+    ([KeyCongr.peq_congr], [contains_congr], [contains_congr_l], [to_right_congr],
+    [to_right_congr_l], [plen_congr]).  So on every well-formed map two valid representations [q],
+    [q'] of one key give LITERALLY THE SAME result in every selection ([get_lpm], [get_lpm_prefix],
+    [get_lpm_mut], [get_spm], [get_spm_prefix], [cover] — the whole iterator and every single
+    [next] —, [children], [children_mut], [into_children]) and every removal (the same resulting
+    map: tree, free list, arena length and counter — stronger than [same_effect] above), and in
+    [find_exact]/[find_lpm] of both view types.  [view_at]/[TrieView::find]/[TrieViewMut::find]
+    store the query itself in a virtual view; there literal equality is FALSE
+    ([C18_view_at_literal_refuted]) and the two results are at the same location: the same real
+    node (same subtree), both real or both virtual, with virtual prefixes of equal key and length —
+    so [prefix()] has the same key, and [value], [prefix_value], the iterators, [left], [right],
+    [split], [remove], [set], writes, and every further [find*] call agree again, along navigations
+    of any length ([C18_view_navigation_key_only], [C18_view_mut_navigation_key_only]). *)
+From PT Require KeyCongr.
+
+Section C18_keys.
+Variables (w : N) (fl : flavour) (V : Type).
+Hypothesis Hw : (1 <= w)%N.
+Notation L := (laws w fl Hw).
+Notation nok := (KeyCongr.wf_root_nodes_ok pfx V (kbits w) (okp w)).
+
+(** LONGEST-PREFIX MATCH, all three copies of the loop *)
+Theorem C18_lpm_variants_key_only (t : tree pfx V) (q q' : pfx) :
+  wfm w V t -> okp w q -> okp w q' -> kbits w q = kbits w q' ->
+  t_get_lpm w fl V t q = t_get_lpm w fl V t q' /\
+  t_get_lpm_prefix w fl V t q = t_get_lpm_prefix w fl V t q' /\
+  t_get_lpm_mut w fl V t q = t_get_lpm_mut w fl V t q'.
+Proof.
+  intros Hwf Hq Hq' E. pose proof (nok t Hwf) as Hn. split; [|split].
+  - exact (KeyCongr.get_lpm_congr pfx V _ _ _ _ _ _ _ _ _ L q q' Hq Hq' E t Hn).
+  - exact (KeyCongr.get_lpm_prefix_congr pfx V _ _ _ _ _ _ _ _ _ L q q' Hq Hq' E t Hn).
+  - exact (KeyCongr.get_lpm_mut_congr pfx V _ _ _ _ _ _ _ _ _ L q q' Hq Hq' E t Hn).
+Qed.
+
+(** SHORTEST-PREFIX MATCH and COVER: the same item / the same list of items; for the lazy [Cover]
+    iterator also call by call — the first [next] and every later one (the iterator stands at a
+    node of the map, i.e. at [subtree t pa] for some path): same item, same successor state *)
+Theorem C18_spm_cover_key_only (t : tree pfx V) (q q' : pfx) :
+  wfm w V t -> okp w q -> okp w q' -> kbits w q = kbits w q' ->
+  t_get_spm w fl V t q = t_get_spm w fl V t q' /\
+  t_get_spm_prefix w fl V t q = t_get_spm_prefix w fl V t q' /\
+  t_cover_walk w fl V t q = t_cover_walk w fl V t q' /\
+  (forall fuel, t_cover_drain w fl V fuel t CStart q = t_cover_drain w fl V fuel t CStart q') /\
+  t_cover_next w fl V t CStart q = t_cover_next w fl V t CStart q' /\
+  (forall pa, t_cover_next w fl V t (CAt (subtree t pa)) q = t_cover_next w fl V t (CAt (subtree t pa)) q') /\
+  (forall pa fuel, t_cover_drain w fl V fuel t (CAt (subtree t pa)) q
+                   = t_cover_drain w fl V fuel t (CAt (subtree t pa)) q').
+Proof.
+  intros Hwf Hq Hq' E. pose proof (nok t Hwf) as Hn.
+  assert (Hs : forall pa, KeyCongr.nodes_ok pfx V (okp w) (subtree t pa)).
+  { intros pa. apply KeyCongr.nodes_ok_subtree. exact Hn. }
+  repeat split.
+  - exact (KeyCongr.get_spm_congr pfx V _ _ _ _ _ _ _ _ _ L q q' Hq Hq' E t Hn).
+  - exact (KeyCongr.get_spm_prefix_congr pfx V _ _ _ _ _ _ _ _ _ L q q' Hq Hq' E t Hn).
+  - exact (KeyCongr.cover_walk_congr pfx V _ _ _ _ _ _ _ _ _ L q q' Hq Hq' E t Hn).
+  - intros fuel. exact (KeyCongr.cover_drain_congr pfx V _ _ _ _ _ _ _ _ _ L q q' Hq Hq' E fuel t CStart Hn I).
+  - exact (KeyCongr.cover_next_congr pfx V _ _ _ _ _ _ _ _ _ L q q' Hq Hq' E t CStart Hn I).
+  - intros pa. exact (KeyCongr.cover_next_congr pfx V _ _ _ _ _ _ _ _ _ L q q' Hq Hq' E t (CAt (subtree t pa)) Hn (Hs pa)).
+  - intros pa fuel.
+    exact (KeyCongr.cover_drain_congr pfx V _ _ _ _ _ _ _ _ _ L q q' Hq Hq' E fuel t (CAt (subtree t pa)) Hn (Hs pa)).
+Qed.
+
+(** CHILDREN: the same initial stack ([lpm_children_iter_start]), hence the same items (with the
+    same slots) from [children], [children_mut], [into_children] *)
+Theorem C18_children_key_only (t : tree pfx V) (q q' : pfx) :
+  wfm w V t -> okp w q -> okp w q' -> kbits w q = kbits w q' ->
+  children_start pfx V (peq w) (contains w fl) (is_bit_set w) plen t q
+  = children_start pfx V (peq w) (contains w fl) (is_bit_set w) plen t q' /\
+  t_children w fl V t q = t_children w fl V t q' /\
+  t_children_mut w fl V t q = t_children_mut w fl V t q' /\
+  t_into_children w fl V t q = t_into_children w fl V t q'.
+Proof.
+  intros Hwf Hq Hq' E. pose proof (nok t Hwf) as Hn. repeat split.
+  - exact (KeyCongr.children_start_congr pfx V _ _ _ _ _ _ _ _ _ L q q' Hq Hq' E t Hn).
+  - exact (KeyCongr.children_congr pfx V _ _ _ _ _ _ _ _ _ L q q' Hq Hq' E t Hn).
+  - exact (KeyCongr.children_mut_congr pfx V _ _ _ _ _ _ _ _ _ L q q' Hq Hq' E t Hn).
+  - exact (KeyCongr.into_children_congr pfx V _ _ _ _ _ _ _ _ _ L q q' Hq Hq' E t Hn).
+Qed.
+
+(** REMOVALS and in-place updates: the same returned value and the same resulting MAP — the same
+    tree (node for node, slot for slot), free list, arena length and counter.  (Strengthens the
+    [same_effect] clauses of [C18_interchangeable], which compare entry lists.) *)
+Theorem C18_removal_key_only (m : pmap pfx V) (q q' : pfx) :
+  wfm w V (root m) -> okp w q -> okp w q' -> kbits w q = kbits w q' ->
+  t_remove w fl V m q = t_remove w fl V m q' /\
+  t_remove_keep_tree w fl V m q = t_remove_keep_tree w fl V m q' /\
+  t_occ_remove w fl V m q = t_occ_remove w fl V m q' /\
+  t_remove_children w fl V m q = t_remove_children w fl V m q' /\
+  (forall g, t_update_value w fl V m q g = t_update_value w fl V m q' g) /\
+  t_get_node w fl V (root m) q = t_get_node w fl V (root m) q'.
+Proof.
+  intros Hwf Hq Hq' E. pose proof (nok (root m) Hwf) as Hn. repeat split.
+  - exact (KeyCongr.remove_congr pfx V _ _ _ _ _ _ _ _ _ L q q' Hq Hq' E m Hn).
+  - exact (KeyCongr.remove_keep_tree_congr pfx V _ _ _ _ _ _ _ _ _ L q q' Hq Hq' E m Hn).
+  - exact (KeyCongr.occ_remove_congr pfx V _ _ _ _ _ _ _ _ _ L q q' Hq Hq' E m Hn).
+  - exact (KeyCongr.remove_children_congr pfx V _ _ _ _ _ _ _ _ _ L q q' Hq Hq' E m Hn).
+  - intros g. exact (KeyCongr.update_value_congr pfx V _ _ _ _ _ _ _ _ _ L q q' Hq Hq' E m g Hn).
+  - exact (KeyCongr.get_node_congr pfx V _ _ _ _ _ _ _ _ _ L q q' Hq Hq' E (root m) Hn).
+Qed.
+
+(** VIEWS.  [same_view v v']: the two views are at the same location and indistinguishable by
+    every observer except the host bits of a virtual view's [prefix()]: the same real node (the
+    same subtree), both real or both virtual, prefixes with the same key and length, the same
+    value, entry, iterator, [left()] and [right()]. *)
+Definition same_view (v v' : view pfx V) : Prop :=
+  v_tree v = v_tree v' /\ v_is_virtual v = v_is_virtual v' /\
+  kbits w (t_v_prefix V v) = kbits w (t_v_prefix V v') /\ plen (t_v_prefix V v) = plen (t_v_prefix V v') /\
+  v_value v = v_value v' /\ v_prefix_value v = v_prefix_value v' /\ v_iter v = v_iter v' /\
+  t_v_left w V v = t_v_left w V v' /\ t_v_right w V v = t_v_right w V v'.
+Definition same_oview (o o' : option (view pfx V)) : Prop :=
+  match o, o' with
+  | None, None => True
+  | Some v, Some v' => same_view v v'
+  | _, _ => False
+  end.
+
+Lemma C18_view_sim_same v v' : KeyCongr.view_sim pfx V (kbits w) (okp w) v v' -> same_view v v'.
+Proof.
+  intros H.
+  destruct (KeyCongr.view_sim_observers pfx V _ _ _ _ _ _ _ _ _ L v v' H) as [A [B [C [D [F [G K]]]]]].
+  unfold same_view. repeat split; try assumption.
+  - exact (KeyCongr.v_left_congr pfx V _ _ _ _ _ _ _ _ _ L v v' H).
+  - exact (KeyCongr.v_right_congr pfx V _ _ _ _ _ _ _ _ _ L v v' H).
+Qed.
+
+Lemma C18_osim_same o o' : KeyCongr.osim pfx V (kbits w) (okp w) o o' -> same_oview o o'.
+Proof. destruct o, o'; cbn; try tauto. apply C18_view_sim_same. Qed.
+
+(** the view calls on a map: [view_at] and [find] give views at the same location; [find_exact]
+    and [find_lpm] (which only return real nodes) give the same view *)
+Theorem C18_views_key_only (T : tree pfx V) (q q' : pfx) :
+  wfm w V T -> okp w q -> okp w q' -> kbits w q = kbits w q' ->
+  same_oview (t_view_at w fl V T q) (t_view_at w fl V T q') /\
+  same_oview (t_v_find w fl V (view_of T) q) (t_v_find w fl V (view_of T) q') /\
+  t_v_find_exact w fl V (view_of T) q = t_v_find_exact w fl V (view_of T) q' /\
+  t_v_find_lpm w fl V (view_of T) q = t_v_find_lpm w fl V (view_of T) q'.
+Proof.
+  intros Hwf Hq Hq' E. pose proof (nok T Hwf) as Hn.
+  assert (S : KeyCongr.view_sim pfx V (kbits w) (okp w) (view_of T) (view_of T)) by constructor.
+  repeat split.
+  - apply C18_osim_same. exact (KeyCongr.view_at_sim pfx V _ _ _ _ _ _ _ _ _ L q q' Hq Hq' E T Hn).
+  - apply C18_osim_same. exact (KeyCongr.v_find_sim pfx V _ _ _ _ _ _ _ _ _ L q q' Hq Hq' E _ _ S Hn).
+  - exact (KeyCongr.v_find_exact_congr pfx V _ _ _ _ _ _ _ _ _ L q q' Hq Hq' E _ _ S Hn).
+  - exact (KeyCongr.v_find_lpm_congr pfx V _ _ _ _ _ _ _ _ _ L q q' Hq Hq' E _ _ S Hn).
+Qed.
+
+(** ... and on sub-views, to any depth.  A navigation is a list of calls [find q] / [find_exact q]
+    / [find_lpm q] / [left] / [right], each applied to the view the previous one returned
+    ([vnav]; [None] as soon as a call returns [None]).  Two navigations that make the same calls
+    with (valid) representations of the same keys ([same_calls]) both fail, or end in views at the
+    same location. *)
+Notation vstep := (KeyCongr.vstep pfx).
+Notation SFind := (KeyCongr.SFind pfx).
+Notation SFindExact := (KeyCongr.SFindExact pfx).
+Notation SFindLpm := (KeyCongr.SFindLpm pfx).
+Notation SLeft := (KeyCongr.SLeft pfx).
+Notation SRight := (KeyCongr.SRight pfx).
+Notation vnav := (KeyCongr.vnav pfx V (peq w) (contains w fl) (is_bit_set w) plen pzero).
+Notation same_calls := (Forall2 (KeyCongr.vstep_sim pfx (kbits w) (okp w))).
+
+Example vnav_unfold (v : view pfx V) s ss :
+  vnav v [] = Some v /\
+  vnav v (s :: ss)
+  = match match s with
+          | KeyCongr.SFind _ q => t_v_find w fl V v q
+          | KeyCongr.SFindExact _ q => t_v_find_exact w fl V v q
+          | KeyCongr.SFindLpm _ q => t_v_find_lpm w fl V v q
+          | KeyCongr.SLeft _ => t_v_left w V v
+          | KeyCongr.SRight _ => t_v_right w V v
+          end with Some v' => vnav v' ss | None => None end.
+Proof. split; reflexivity. Qed.
+
+Example same_call_unfold s s' :
+  KeyCongr.vstep_sim pfx (kbits w) (okp w) s s' =
+  match s, s' with
+  | KeyCongr.SFind _ q, KeyCongr.SFind _ q'
+  | KeyCongr.SFindExact _ q, KeyCongr.SFindExact _ q'
+  | KeyCongr.SFindLpm _ q, KeyCongr.SFindLpm _ q' => okp w q /\ okp w q' /\ kbits w q = kbits w q'
+  | KeyCongr.SLeft _, KeyCongr.SLeft _ | KeyCongr.SRight _, KeyCongr.SRight _ => True
+  | _, _ => False
+  end.
+Proof. reflexivity. Qed.
+
+Theorem C18_view_navigation_key_only (T : tree pfx V) (ss ss' : list vstep) :
+  wfm w V T -> same_calls ss ss' -> same_oview (vnav (view_of T) ss) (vnav (view_of T) ss').
+Proof.
+  intros Hwf HF. apply C18_osim_same.
+  apply (KeyCongr.vnav_sim pfx V _ _ _ _ _ _ _ _ _ L ss ss' (view_of T) (view_of T)); [|constructor|exact HF].
+  split; [exact (nok T Hwf) | exact I].
+Qed.
+
+(** MUTABLE VIEWS.  [same_vmut T m m']: the same path from the root, both real or both virtual with
+    prefixes of the same key; and then every operation of [TrieViewMut] agrees: the same subtree,
+    [left]/[right]/[split], [value], [remove], [set], writes through [value_mut], [iter_mut]; the
+    key of [prefix()]. *)
+Definition same_vmut (T : tree pfx V) (m m' : vmut pfx) : Prop :=
+  mpath pfx m = mpath pfx m' /\
+  match mvirt pfx m, mvirt pfx m' with
+  | None, None => True
+  | Some p, Some p' => kbits w p = kbits w p'
+  | _, _ => False
+  end /\
+  vm_tree T m = vm_tree T m' /\
+  t_vm_left w V T m = t_vm_left w V T m' /\ t_vm_right w V T m = t_vm_right w V T m' /\
+  t_vm_split w V T m = t_vm_split w V T m' /\
+  t_vm_has_left w V T m = t_vm_has_left w V T m' /\ t_vm_has_right w V T m = t_vm_has_right w V T m' /\
+  kbits w (t_vm_prefix V T m) = kbits w (t_vm_prefix V T m') /\
+  vm_value T m = vm_value T m' /\ vm_remove T m = vm_remove T m' /\
+  (forall x, vm_set T m x = vm_set T m' x) /\
+  (forall g, vm_value_mut T m g = vm_value_mut T m' g) /\
+  vm_iter_mut T m = vm_iter_mut T m'.
+Definition same_ovmut (T : tree pfx V) (o o' : option (vmut pfx)) : Prop :=
+  match o, o' with
+  | None, None => True
+  | Some m, Some m' => same_vmut T m m'
+  | _, _ => False
+  end.
+
+Lemma C18_vm_sim_same T m m' : KeyCongr.vm_sim pfx (kbits w) (okp w) m m' -> same_vmut T m m'.
+Proof.
+  intros H. pose proof (KeyCongr.vm_ops_congr pfx V _ _ _ _ _ _ _ _ _ L T m m' H) as K.
+  destruct H as [A B]. split; [exact A|]. split; [|exact K].
+  destruct (mvirt pfx m), (mvirt pfx m'); try tauto.
+Qed.
+
+Lemma C18_ovm_sim_same T o o' : KeyCongr.ovm_sim pfx (kbits w) (okp w) o o' -> same_ovmut T o o'.
+Proof. destruct o, o'; cbn; try tauto. apply C18_vm_sim_same. Qed.
+
+Notation vmnav := (KeyCongr.vmnav pfx V (peq w) (contains w fl) (is_bit_set w) plen pzero).
+
+Example vmnav_unfold (T : tree pfx V) (m : vmut pfx) s ss :
+  vmnav T m [] = Some m /\
+  vmnav T m (s :: ss)
+  = match match s with
+          | KeyCongr.SFind _ q => t_vm_find w fl V T m q
+          | KeyCongr.SFindExact _ q => t_vm_find_exact w fl V T m q
+          | KeyCongr.SFindLpm _ q => t_vm_find_lpm w fl V T m q
+          | KeyCongr.SLeft _ => t_vm_left w V T m
+          | KeyCongr.SRight _ => t_vm_right w V T m
+          end with Some m' => vmnav T m' ss | None => None end.
+Proof. split; reflexivity. Qed.
+
+(** the [find*] calls of the map's mutable view *)
+Theorem C18_view_mut_key_only (T : tree pfx V) (q q' : pfx) :
+  wfm w V T -> okp w q -> okp w q' -> kbits w q = kbits w q' ->
+  same_ovmut T (t_vm_find w fl V T (vm_root pfx) q) (t_vm_find w fl V T (vm_root pfx) q') /\
+  t_vm_find_exact w fl V T (vm_root pfx) q = t_vm_find_exact w fl V T (vm_root pfx) q' /\
+  t_vm_find_lpm w fl V T (vm_root pfx) q = t_vm_find_lpm w fl V T (vm_root pfx) q'.
+Proof.
+  intros Hwf Hq Hq' E. pose proof (nok T Hwf) as Hn.
+  assert (S : KeyCongr.vm_sim pfx (kbits w) (okp w) (vm_root pfx) (vm_root pfx)) by (split; [reflexivity | exact I]).
+  repeat split.
+  - apply C18_ovm_sim_same. exact (KeyCongr.vm_find_sim pfx V _ _ _ _ _ _ _ _ _ L q q' Hq Hq' E T _ _ Hn S).
+  - exact (KeyCongr.vm_find_exact_congr pfx V _ _ _ _ _ _ _ _ _ L q q' Hq Hq' E T _ _ Hn S).
+  - exact (KeyCongr.vm_find_lpm_congr pfx V _ _ _ _ _ _ _ _ _ L q q' Hq Hq' E T _ _ Hn S).
+Qed.
+
+(** ... and navigations of any length from it *)
+Theorem C18_view_mut_navigation_key_only (T : tree pfx V) (ss ss' : list vstep) :
+  wfm w V T -> same_calls ss ss' -> same_ovmut T (vmnav T (vm_root pfx) ss) (vmnav T (vm_root pfx) ss').
+Proof.
+  intros Hwf HF. apply C18_ovm_sim_same.
+  apply (KeyCongr.vmnav_sim pfx V _ _ _ _ _ _ _ _ _ L T ss ss' (vm_root pfx) (vm_root pfx) (nok T Hwf)); [|exact HF].
+  split; [reflexivity | exact I].
+Qed.
+
+End C18_keys.
+
+(** literal equality of the two [view_at] results is FALSE: at [w = 8], in the map holding
+    [0100_0000/2], the queries [0000_0000/1] and [0011_1111/1] (one key, [0]) yield the virtual
+    views [VVirt (0000_0000/1) c] and [VVirt (0011_1111/1) c] over the same node [c]; [prefix()]
+    reports the query's own representation (there is no stored one). *)
+Definition C18_T2 : tree pfx nat :=
+  root (hrun 8 Generic nat [OInsert pfx nat (mkpfx 0x40 2) 1%nat; OInsert pfx nat (mkpfx 0x60 3) 2%nat;
+                            OInsert pfx nat (mkpfx 0xc0 2) 3%nat]).
+
+Theorem C18_view_at_literal_refuted :
+  exists (T : tree pfx nat) (q q' : pfx),
+    wfm 8 nat T /\ okp 8 q /\ okp 8 q' /\ kbits 8 q = kbits 8 q' /\
+    t_view_at 8 Generic nat T q <> t_view_at 8 Generic nat T q' /\
+    option_map (t_v_prefix nat) (t_view_at 8 Generic nat T q) = Some q /\
+    option_map (t_v_prefix nat) (t_view_at 8 Generic nat T q') = Some q'.
+Proof.
+  exists C18_T2, (mkpfx 0x00 1), (mkpfx 0x3f 1).
+  split; [apply (reachable_wfm 8 Generic nat); [discriminate | repeat constructor]|].
+  vm_compute. repeat split; try reflexivity. discriminate.
+Qed.
+
+(** non-vacuity of the selection/view theorems on that map: the two representations select the
+    same children and cover, and the virtual views have the same subtree and the same [left()] *)
+Example C18_keys_example :
+  let q := mkpfx 0x00 1 in let q' := mkpfx 0x3f 1 in
+  map (Inst.drop_id nat) (t_children 8 Generic nat C18_T2 q) = [(mkpfx 0x40 2, 1%nat); (mkpfx 0x60 3, 2%nat)] /\
+  map (Inst.drop_id nat) (t_children 8 Generic nat C18_T2 q') = [(mkpfx 0x40 2, 1%nat); (mkpfx 0x60 3, 2%nat)] /\
+  t_cover_walk 8 Generic nat C18_T2 (mkpfx 0x7f 3) = [(mkpfx 0x40 2, 1%nat); (mkpfx 0x60 3, 2%nat)] /\
+  t_cover_walk 8 Generic nat C18_T2 (mkpfx 0x60 3) = [(mkpfx 0x40 2, 1%nat); (mkpfx 0x60 3, 2%nat)] /\
+  t_get_spm_prefix 8 Generic nat C18_T2 (mkpfx 0x7f 3) = Some (mkpfx 0x40 2) /\
+  t_get_lpm_prefix 8 Generic nat C18_T2 (mkpfx 0x7f 3) = Some (mkpfx 0x60 3) /\
+  option_map v_is_virtual (t_view_at 8 Generic nat C18_T2 q) = Some true /\
+  option_map v_tree (t_view_at 8 Generic nat C18_T2 q) = option_map v_tree (t_view_at 8 Generic nat C18_T2 q') /\
+  option_map (fun v => map (Inst.drop_id nat) (v_iter v)) (t_view_at 8 Generic nat C18_T2 q')
+    = Some [(mkpfx 0x40 2, 1%nat); (mkpfx 0x60 3, 2%nat)] /\
+  option_map (t_vm_prefix nat C18_T2) (t_vm_find 8 Generic nat C18_T2 (vm_root pfx) q') = Some q'.
+Proof. vm_compute. repeat split; reflexivity. Qed.
+
 Print Assumptions C18_interchangeable.
 Print Assumptions C18_lpm_key_only.
 Print Assumptions C18_one_entry_per_key.
@@ -292,3 +610,16 @@ Print Assumptions C18_entry_key_reports_stored.
 Print Assumptions C18_iter_reports_stored.
 Print Assumptions C18_union_reports_stored.
 Print Assumptions C18_intersection_reports_stored.
+Print Assumptions C18_lpm_variants_key_only.
+Print Assumptions C18_spm_cover_key_only.
+Print Assumptions C18_children_key_only.
+Print Assumptions C18_removal_key_only.
+Print Assumptions C18_view_sim_same.
+Print Assumptions C18_osim_same.
+Print Assumptions C18_views_key_only.
+Print Assumptions C18_view_navigation_key_only.
+Print Assumptions C18_vm_sim_same.
+Print Assumptions C18_ovm_sim_same.
+Print Assumptions C18_view_mut_key_only.
+Print Assumptions C18_view_mut_navigation_key_only.
+Print Assumptions C18_view_at_literal_refuted.
